@@ -240,12 +240,13 @@ WordsSA == {"i", "n", "f", "a", "-", "sp", "gs", "us"}
 NonAA  == {"1", "_", ".", "e", "sp", "gs", "us", "u3"}
 Both == {"str", "bytes"}
 FamTable == [core5 |-> [alpha |-> CoreA, maxlen |-> 5, modes |-> {"str"}],
-             core6 |-> [alpha |-> CoreSA, maxlen |-> 6, modes |-> {"str"}],
-             core7 |-> [alpha |-> CoreA, maxlen |-> 7, modes |-> {"str"}],
+             core6 |-> [alpha |-> CoreA, maxlen |-> 6, modes |-> {"str"}],
+             cores5 |-> [alpha |-> CoreSA, maxlen |-> 5, modes |-> {"str"}],
              wide3 |-> [alpha |-> WideA, maxlen |-> 3, modes |-> Both],
              wide4 |-> [alpha |-> WideA, maxlen |-> 4, modes |-> Both],
              words5 |-> [alpha |-> WordsA, maxlen |-> 5, modes |-> {"str"}],
-             words6 |-> [alpha |-> WordsSA, maxlen |-> 6, modes |-> Both],
+             words6 |-> [alpha |-> WordsA, maxlen |-> 6, modes |-> {"str"}],
+             wordss5 |-> [alpha |-> WordsSA, maxlen |-> 5, modes |-> Both],
              nona4 |-> [alpha |-> NonAA, maxlen |-> 4, modes |-> Both],
              nona5 |-> [alpha |-> NonAA, maxlen |-> 5, modes |-> Both]]
 
@@ -259,8 +260,9 @@ Analyse(m, s) ==
   IN [ref  |-> r,
       impl |-> Impl(m, s, r),
       und  |-> undok <=> UndDeclOK(core),
-      gram |-> CheckDecl => (full.acc <=> (DeclMatch(clean) /\ \A k \in 1..Len(clean) : clean[k] # "nul")),
-      pad  |-> CheckDecl => r = Ref(m, <<"sp">> \o s \o <<"sp">>)]
+      \* (the declarative grammar costs n^3: short strings only; the long records are decided by the scanner)
+      gram |-> (CheckDecl /\ Len(s) <= 12) => (full.acc <=> (DeclMatch(clean) /\ \A k \in 1..Len(clean) : clean[k] # "nul")),
+      pad  |-> (CheckDecl /\ Len(s) <= 12) => r = Ref(m, <<"sp">> \o s \o <<"sp">>)]
 
 VARIABLES fam, mode, str, an, rid
 vars == <<fam, mode, str, an, rid>>
